@@ -47,12 +47,14 @@ def gen_overlay(variant):
     return genoverlay.generate(REPO, os.path.join(BUILD, "overlay"), variant)
 
 
-def build(prop, plan, variant="", race=False):
+def build(prop, plan, variant="", race=False, fuzz=False):
     pkg = prop.lower()
     os.makedirs(os.path.join(BUILD, "bin"), exist_ok=True)
     race = race or plan.get("race")
-    out = os.path.join(BUILD, "bin", pkg + ("." + variant if variant else "") + (".race" if race else "") + ".test")
+    out = os.path.join(BUILD, "bin", pkg + ("." + variant if variant else "") + (".race" if race else "") + (".fuzz" if fuzz else "") + ".test")
     cmd = ["go", "test", "-c", "-o", out, "-tags", "verif", "-vet=off"]
+    if fuzz:
+        cmd += ["-fuzz", "Fuzz"]  # coverage instrumentation for the native fuzzer
     ov = gen_overlay(variant)
     if ov:
         cmd += ["-overlay", ov]
@@ -108,11 +110,11 @@ def main():
     binaries = {}
     build_s = 0.0
 
-    def binary_for(variant, race=False):
+    def binary_for(variant, race=False, fuzz=False):
         nonlocal build_s
-        key = (variant, bool(race))
+        key = (variant, bool(race), bool(fuzz))
         if key not in binaries:
-            b, dt = build(prop, plan, variant, race)
+            b, dt = build(prop, plan, variant, race, fuzz)
             binaries[key] = b
             build_s += dt
         return binaries[key]
@@ -125,6 +127,16 @@ def main():
     if mode == "replay":
         path = os.path.abspath(sys.argv[3])
         env = goenv()
+        mf = re.match(r".*-(Fuzz[A-Za-z0-9]+)-([0-9a-f]+)\.fuzzinput$", os.path.basename(path))
+        if mf:
+            # a failing input saved by the native fuzzer: put it where `go test` looks for it and run exactly that input
+            fz, fid = mf.group(1), mf.group(2)
+            wd = os.path.join(outdir, "work")
+            os.makedirs(os.path.join(wd, "testdata", "fuzz", fz), exist_ok=True)
+            shutil.copy(path, os.path.join(wd, "testdata", "fuzz", fz, fid))
+            binary = binary_for("", False, True)
+            r = subprocess.run([binary, "-test.run", "^%s$/%s" % (fz, fid), "-test.v"], cwd=wd, env=env)
+            sys.exit(1 if r.returncode != 0 else 0)
         # replay files are named <tier>-<seed>-<Test>[@variant]-<shard>.json
         m = re.search(r"@([a-z0-9]+)-\d+\.json$", os.path.basename(path))
         variant = m.group(1) if m else ""
@@ -149,14 +161,21 @@ def main():
             variant = t.get("variant", "")
             disp = t["name"] + ("@" + variant if variant else "")
             tag = "%s-%d" % (disp, s)
-            binary = binary_for(variant, t.get("race"))
-            cmd = [binary, "-test.run", "^%s$" % t["name"], "-test.timeout", "0", "-test.count", "1"]
+            if t.get("kind") == "fuzz":
+                if s > 0:
+                    continue  # one fuzzing campaign per target; it uses all cores itself
+                binary = binary_for(variant, False, True)
+                cmd = [binary, "-test.run", "^$", "-test.fuzz", "^%s$" % t["name"], "-test.fuzztime", "%ds" % n,
+                       "-test.fuzzcachedir", os.path.join(BUILD, "fuzzcache", prop), "-test.timeout", "0"]
+            else:
+                binary = binary_for(variant, t.get("race"))
+                cmd = [binary, "-test.run", "^%s$" % t["name"], "-test.timeout", "0", "-test.count", "1"]
             if t.get("kind", "rapid") == "rapid":
                 per = max(1, n // shards)
                 cmd += ["-rapid.checks=%d" % per, "-rapid.seed=%d" % derive_seed(seed, prop, t["name"], s),
                         "-rapid.nofailfile", "-rapid.shrinktime=%s" % ("20s" if tier == "quick" else "60s")]
             jobs.append({
-                "test": disp, "shard": s, "cmd": cmd, "cwd": os.path.join(outdir, "work"),
+                "test": disp, "shard": s, "cmd": cmd, "kind": t.get("kind", "rapid"), "cwd": os.path.join(outdir, "work"),
                 "requested": (max(1, n // shards) if t.get("kind", "rapid") == "rapid" else None),
                 "timeout": t.get("timeout", {}).get(tier, 900 if tier == "quick" else 5400),
                 "prefix": (["bash", "-c", "ulimit -v %d; exec \"$@\"" % (t["ulimit_v_kb"]), "--"] if t.get("ulimit_v_kb") else []),
@@ -178,6 +197,28 @@ def main():
     agg = {}  # test -> stats
     hashes = {}
     for j in done:
+        if j.get("kind") == "fuzz":
+            out = j.get("output") or ""
+            m = re.findall(r"execs: (\d+) .*?new interesting: \d+ \(total: (\d+)\)", out)
+            execs, corpus = (int(m[-1][0]), int(m[-1][1])) if m else (0, 0)
+            a = agg.setdefault(j["test"], {"evaluations": 0, "classes": {}, "samples": [], "known": {}, "quarantined_cases": 0,
+                                           "rule": "coverage-guided native fuzzing (go test -fuzz) of the byte-level entry points; evaluations = executions, distinct non-trivial = inputs that reached new coverage (corpus size)", "exhaustive": False})
+            a["evaluations"] += execs
+            hashes.setdefault(j["test"], set()).update(range(corpus))
+            a["samples"].append({"fuzz_target": j["test"], "executions": execs, "corpus": corpus})
+            mm = re.search(r"Failing input written to (testdata/fuzz/(Fuzz\w+)/([0-9a-f]+))", out)
+            if mm:
+                src = os.path.join(j["cwd"], mm.group(1))
+                rp = os.path.join(replay_dir, "%s-%d-%s-%s.fuzzinput" % (tier, seed, mm.group(2), mm.group(3)))
+                try:
+                    shutil.copy(src, rp)
+                except Exception:
+                    pass
+                i = out.find("--- FAIL")
+                violations.append((j["test"], rp, out[i:i + 1500] if i >= 0 else out[-1500:]))
+            elif j["rc"] != 0:
+                inconclusive.append("%s: fuzzing ended with exit %s without a saved input:\n%s" % (j["test"], j["rc"], out[-1500:]))
+            continue
         st = None
         try:
             st = json.load(open(j["env"]["VERIF_OUT"]))
